@@ -322,7 +322,10 @@ theorem exportName_keeps (e : Env) (n : Str) (un : Bool) : KeepsL e.scopes (e.ex
   · next r hm =>
     obtain ⟨e', ok⟩ := r
     exact modify_keeps e e' n _ _ ok (fun v h => ⟨rfl, h⟩) hm
-  · exact KeepsL.refl _
+  · next hm =>
+    split
+    · exact KeepsL.refl _
+    · exact add_keeps e n _ _ (modify_anywhere_none e n _ hm)
 
 
 /-! ## per-operation lemmas -/
@@ -337,18 +340,6 @@ theorem match_modify_keeps (e : Env) (n : Str) (pol : Policy) (f : Var → R) (h
 theorem ite_keeps (s : List Scope) (c : Prop) [Decidable c] (a b : Env × Bool)
     (ha : KeepsL s a.1.scopes) (hb : KeepsL s b.1.scopes) : KeepsL s (if c then a else b).1.scopes := by
   split <;> assumption
-
-theorem applyPlain_keeps (e : Env) (n : Str) (lit : Lit) (ap ex : Bool) :
-    KeepsL e.scopes (e.applyAssignment n none lit ap ex none .global).1.scopes := by
-  unfold Env.applyAssignment
-  cases hg : e.get n with
-  | none =>
-    have hu : Unbound n e.scopes := getScopes_none n _ hg
-    cases lit <;> simp <;> exact add_keeps e n _ _ hu
-  | some p =>
-    simp
-    refine match_modify_keeps e n _ _ ?_ _ (fun _ => KeepsL.refl _)
-    intro v h; simp [Var.assign, h]
 
 theorem setTransform_value (v : Var) (f : Option Bool) (t : Transform) :
     (setTransform v f t).value = v.value ∧ (setTransform v f t).readonly = v.readonly := by
@@ -382,7 +373,60 @@ theorem declExisting_fz (fl : DeclFlags) (verb : Verb) (lit : Option Lit) (ai : 
   unfold declExisting
   cases lit with
   | none => simp [ha, hA]; exact ⟨haf.1.trans hb.1, haf.2⟩
-  | some l => simp [ha, hA, Var.assign, hro, hb.1]
+  | some l => simp [ha, hA, h]
+
+/-- `n` is bound in no scope of kind `k` -/
+def UnboundIn (k : Kind) (n : Str) (s : List Scope) : Prop := ∀ sc ∈ s, sc.1 = k → mget sc.2 n = none
+
+theorem addScopes_keeps_in (n : Str) (v : Var) (k : Kind) :
+    ∀ (s s' : List Scope), UnboundIn k n s → addScopes n v k s = some s' → KeepsL s s' := by
+  intro s
+  induction s with
+  | nil => intro s' _ h; simp [addScopes] at h
+  | cons hd tl ih =>
+    intro s' hu h
+    obtain ⟨k', m⟩ := hd
+    simp only [addScopes] at h
+    split at h
+    · next hk =>
+      cases h
+      exact ⟨rfl, keepsMap_mset_new m n v (hu (k', m) (List.mem_cons_self ..) hk), KeepsL.refl tl⟩
+    · cases hrec : addScopes n v k tl with
+      | none => simp [hrec] at h
+      | some r' =>
+        simp [hrec] at h
+        cases h
+        exact ⟨rfl, KeepsMap.refl m, ih r' (fun sc hsc => hu sc (List.mem_cons_of_mem _ hsc)) hrec⟩
+
+theorem modPol_onlyGlobal_none (n : Str) (f : Var → R) :
+    ∀ (s : List Scope) (lc : Nat), modPol n .onlyGlobal f lc s = none → UnboundIn .global n s := by
+  intro s
+  induction s with
+  | nil => intro _ _ sc h; cases h
+  | cons hd tl ih =>
+    intro lc h sc hsc hk
+    obtain ⟨k, m⟩ := hd
+    simp only [modPol, eligible] at h
+    split at h
+    · cases h
+    · next hm =>
+      have hne : ¬ (k = Kind.loc ∧ Policy.onlyGlobal = Policy.onlyCurrentLocal) := by simp
+      simp only [hne, if_false] at h
+      split at h
+      · cases h
+      · next hrec =>
+        rcases List.mem_cons.mp hsc with rfl | h'
+        · simp only at hk
+          subst hk
+          simpa using hm
+        · exact ih _ hrec sc h' hk
+
+theorem add_keeps_in (e : Env) (n : Str) (v : Var) (k : Kind) (hu : UnboundIn k n e.scopes) :
+    KeepsL e.scopes (e.add n v k).1.scopes := by
+  unfold Env.add
+  cases ha : addScopes n v k e.scopes with
+  | none => exact KeepsL.refl _
+  | some s' => exact addScopes_keeps_in n v k _ _ hu ha
 
 theorem declare_keeps (e : Env) (n : Str) (fl : DeclFlags) (verb : Verb) (lit : Option Lit)
     (ai na inf : Bool) (ha : fl.a = false) (hA : fl.A = false) :
@@ -406,10 +450,18 @@ theorem declare_keeps (e : Env) (n : Str) (fl : DeclFlags) (verb : Verb) (lit : 
         | none => rfl
         | some p => simp [hmp] at hm
     · simp only [hcl] at hm ⊢
-      refine add_keeps e n _ _ (modPol_anywhere_none n (declExisting fl verb lit ai) _ 0 ?_)
-      cases hmp : modPol n .anywhere (declExisting fl verb lit ai) 0 e.scopes with
-      | none => rfl
-      | some p => simp [hmp] at hm
+      by_cases hg : fl.g = true
+      · simp only [hg, if_true] at hm
+        refine add_keeps_in e n _ _ (modPol_onlyGlobal_none n (declExisting fl verb lit ai) _ 0 ?_)
+        cases hmp : modPol n .onlyGlobal (declExisting fl verb lit ai) 0 e.scopes with
+        | none => rfl
+        | some p => simp [hmp] at hm
+      · simp only [hg] at hm
+        refine add_keeps e n _ _ (modPol_anywhere_none n (declExisting fl verb lit ai) _ 0 ?_)
+        cases hmp : modPol n .anywhere (declExisting fl verb lit ai) 0 e.scopes with
+        | none => rfl
+        | some p => simp [hmp] at hm
+  refine ite_keeps _ _ _ _ (KeepsL.refl _) ?_
   cases lit with
   | none =>
     simp only []
@@ -437,29 +489,21 @@ theorem applyTemp_keeps (e : Env) (n : Str) (lit : Lit) (m : VMap) (r : List Sco
     (h : e.scopes = (Kind.command, m) :: r) :
     KeepsL e.scopes (e.applyAssignment n none lit false true (some .command) .command).1.scopes := by
   unfold Env.applyAssignment
-  cases hg : e.get n with
+  simp only [Option.isSome_some, if_true, h]
+  cases hm : mget m n with
+  | some v0 =>
+    simp
+    rw [← h]
+    refine match_modify_keeps e n _ _ ?_ _ (fun _ => KeepsL.refl _)
+    intro v hv; simp [Var.assign, hv]
   | none =>
-    have hu : Unbound n e.scopes := getScopes_none n _ hg
-    cases lit <;> simp <;> exact add_keeps e n _ _ hu
-  | some p =>
-    obtain ⟨k, v0⟩ := p
-    by_cases hk : k = Kind.command
-    · subst hk
-      simp
-      refine match_modify_keeps e n _ _ ?_ _ (fun _ => KeepsL.refl _)
-      intro v hv; simp [Var.assign, hv]
-    · have hne : ¬ (Kind.command = k) := fun h => hk h.symm
-      have hm : mget m n = none := by
-        cases hmg : mget m n with
-        | none => rfl
-        | some v1 =>
-          simp [Env.get, h, getScopes, hmg] at hg
-          exact absurd hg.1.symm hk
-      have hadd : ∀ v, KeepsL e.scopes (e.add n v .command).1.scopes := by
-        intro v
-        simp only [Env.add, h, addScopes, if_true]
-        exact ⟨rfl, keepsMap_mset_new m n v hm, KeepsL.refl r⟩
-      cases lit <;> simp [hne] <;> exact hadd _
+    have hadd : ∀ v, KeepsL ((Kind.command, m) :: r) (e.add n v .command).1.scopes := by
+      intro v
+      simp only [Env.add, h, addScopes, if_true]
+      exact ⟨rfl, keepsMap_mset_new m n v hm, KeepsL.refl r⟩
+    simp
+    refine ite_keeps _ _ _ _ (h ▸ KeepsL.refl _) ?_
+    cases lit <;> exact hadd _
 
 theorem keepsL_head_command {m : VMap} {r s' : List Scope} (h : KeepsL ((Kind.command, m) :: r) s') :
     ∃ m' r', s' = (Kind.command, m') :: r' := by
@@ -479,16 +523,14 @@ theorem tempAssigns_keeps : ∀ (items : List (Str × Lit)) (e : Env) (m : VMap)
     cases heq : e.applyAssignment n none lit false true (some .command) .command with
     | mk e' ok =>
       rw [heq] at k1
-      simp only []
-      cases ok with
-      | false => simpa using k1
-      | true =>
-        obtain ⟨m', r', hs⟩ := keepsL_head_command (h ▸ k1)
-        simpa using KeepsL.trans k1 (ih e' m' r' hs)
-
+      obtain ⟨m', r', hs⟩ := keepsL_head_command (h ▸ k1)
+      have k2 := ih e' m' r' hs
+      cases heq2 : tempAssigns e' rest with
+      | mk e'' ok' =>
+        rw [heq2] at k2
+        exact KeepsL.trans k1 k2
 
 /-! ## element writers (readonly checked since the `assign_at_index` / `unset_index` repair) -/
-
 theorem assignAtIndex_fz (i s : Str) (ap : Bool) : Fz (fun v => v.assignAtIndex i s ap) := by
   intro v h; simp [Var.assignAtIndex, h]
 
@@ -497,6 +539,7 @@ theorem unsetIndex_fz (i : Str) : Fz (fun v => v.unsetIndex i) := by
 
 theorem unsetIndex_keeps (e : Env) (n i : Str) : KeepsL e.scopes (e.unsetIndex n i).1.scopes := by
   unfold Env.unsetIndex
+  refine ite_keeps _ _ _ _ (unset_keeps e n) ?_
   exact match_modify_keeps e n _ _ (unsetIndex_fz i) _ (fun _ => KeepsL.refl _)
 
 theorem updateOrAddElem_keeps (e : Env) (n i s : Str) (k : Kind) :
@@ -514,7 +557,9 @@ theorem applyPlainIdx_keeps (e : Env) (n : Str) (idx : Option Str) (lit : Lit) (
   cases hg : e.get n with
   | none =>
     have hu : Unbound n e.scopes := getScopes_none n _ hg
-    cases idx <;> cases lit <;> simp <;> first | exact add_keeps e n _ _ hu | exact KeepsL.refl _
+    simp
+    refine ite_keeps _ _ _ _ (KeepsL.refl _) ?_
+    cases idx <;> cases lit <;> first | exact add_keeps e n _ _ hu | exact KeepsL.refl _
   | some p =>
     simp
     refine match_modify_keeps e n _ _ ?_ _ (fun _ => KeepsL.refl _)
